@@ -252,6 +252,13 @@ def _unconvertible_reason(node: ir.Node, node_version: int, target_version: int)
     and 23+ do not. An int32 x with a floating point y_scale cannot be expressed in
     opsets 19-22 without changing the result.
     """
+    if node_version < SUPPORTED_MIN_ONNX_OPSET:
+        # No adapters exist below the supported range: re-stamping the node would silently
+        # produce an invalid model (e.g. Squeeze-11 with its `axes` attribute under opset 18).
+        return (
+            f"opsets below {SUPPORTED_MIN_ONNX_OPSET} are not supported by the onnxscript "
+            "version converter (use fallback=True to convert with the ONNX C API)"
+        )
     if node.op_type == "QuantizeLinear" and node_version < 19 <= target_version < 23:
         x = _get_input(node, 0)
         y_scale = _get_input(node, 1)
